@@ -382,3 +382,34 @@ func repStringExtInvalid(m protoreflect.Message) bool {
 	})
 	return found
 }
+
+// anyInvalidUTF8: some string field (or extension) at or below m holds invalid UTF-8.
+func anyInvalidUTF8(m protoreflect.Message) bool {
+	found := false
+	m.Range(func(fd protoreflect.FieldDescriptor, v protoreflect.Value) bool {
+		check := func(d protoreflect.FieldDescriptor, x protoreflect.Value) {
+			switch {
+			case d.Kind() == protoreflect.StringKind:
+				found = found || !utf8.ValidString(x.String())
+			case d.Message() != nil:
+				found = found || anyInvalidUTF8(x.Message())
+			}
+		}
+		switch {
+		case fd.IsMap():
+			v.Map().Range(func(k protoreflect.MapKey, e protoreflect.Value) bool {
+				check(fd.MapKey(), k.Value())
+				check(fd.MapValue(), e)
+				return !found
+			})
+		case fd.IsList():
+			for i := 0; i < v.List().Len() && !found; i++ {
+				check(fd, v.List().Get(i))
+			}
+		default:
+			check(fd, v)
+		}
+		return !found
+	})
+	return found
+}
